@@ -342,3 +342,104 @@ Lemma twin_example :
   laccepts 2 twin_sys [LAcq 0; LAcq 0; LEnter 0; LAcq 2; LEnter 2; LAcqD 0; LAcqD 2; LRelD 2; LRelD 0; LFin 0;
                        LAcq 1; LAcq 1; LFin 2; LEnter 1; LAcqD 1; LRelD 1; LFin 1] = (true, true).
 Proof. vm_compute. repeat split; reflexivity. Qed.
+
+(* ---------------------------------------------------------------- the tabulated runner computes the same verdict *)
+Definition Ext (y : lsys) (s1 s2 : lstate) : Prop := forall t, t < ltasks y -> s1 t = s2 t.
+
+Lemma flat_map_ext_in' {A B} (f g : A -> list B) l : (forall x, In x l -> f x = g x) -> flat_map f l = flat_map g l.
+Proof.
+  induction l as [|a r IH]; intros H; [reflexivity|]. cbn. rewrite (H a (or_introl eq_refl)), IH; [reflexivity|].
+  intros x Hx. apply H. right. exact Hx.
+Qed.
+Lemma forallb_ext_in' {A} (f g : A -> bool) l : (forall x, In x l -> f x = g x) -> forallb f l = forallb g l.
+Proof.
+  induction l as [|a r IH]; intros H; [reflexivity|]. cbn. rewrite (H a (or_introl eq_refl)), IH; [reflexivity|].
+  intros x Hx. apply H. right. exact Hx.
+Qed.
+
+Lemma held_by_ext y s1 s2 t : t < ltasks y -> Ext y s1 s2 -> held_by y s1 t = held_by y s2 t.
+Proof. intros Ht E. unfold held_by. rewrite (E t Ht). reflexivity. Qed.
+
+Lemma all_held_ext y s1 s2 : Ext y s1 s2 -> all_held y s1 = all_held y s2.
+Proof.
+  intros E. unfold all_held. apply flat_map_ext_in'. intros t Ht. apply in_seq in Ht. apply held_by_ext; [lia|exact E].
+Qed.
+
+Lemma count_d_ext y s1 s2 : Ext y s1 s2 -> count_d y s1 = count_d y s2.
+Proof.
+  intros E. unfold count_d. f_equal. apply filter_ext_in. intros t Ht. apply in_seq in Ht. rewrite (E t); [reflexivity|lia].
+Qed.
+
+Lemma lnorm_ext y s : Ext y (lnorm y s) s.
+Proof.
+  intros t Ht. unfold lnorm. rewrite (nth_indep _ PDone (s 0)) by (rewrite map_length, seq_length; exact Ht).
+  rewrite map_nth, seq_nth by exact Ht. reflexivity.
+Qed.
+
+Lemma ext_upd y s1 s2 t p : Ext y s1 s2 -> Ext y (lupd s1 t p) (lupd s2 t p).
+Proof.
+  intros E x Hx. unfold lupd. destruct (Nat.eq_dec x t) as [-> |N]; [rewrite !upd_same; reflexivity|].
+  rewrite !upd_other by exact N. apply E. exact Hx.
+Qed.
+
+Lemma lstep_out_of_range n y s a t :
+  match a with LAcq x | LEnter x | LAcqD x | LRelD x | LFin x => x = t end -> ~ t < ltasks y -> lstep n y s a = None.
+Proof.
+  intros Ha Ht. assert (F : Nat.ltb t (ltasks y) = false) by (apply Nat.ltb_ge; lia).
+  destruct a as [x|x|x|x|x]; subst x; unfold lstep.
+  - destruct (s t); try reflexivity. destruct (nth_error _ _); [|reflexivity]. rewrite F. reflexivity.
+  - destruct (s t); try reflexivity. rewrite F. reflexivity.
+  - destruct (s t) as [|[|w]| |]; try reflexivity. rewrite F. reflexivity.
+  - destruct (s t); try reflexivity. rewrite F. reflexivity.
+  - destruct (s t) as [|[|w]| |]; try reflexivity. rewrite F. reflexivity.
+Qed.
+
+Definition act_task (a : lact) : nat := match a with LAcq x | LEnter x | LAcqD x | LRelD x | LFin x => x end.
+
+Lemma lstep_ext n y s1 s2 a : Ext y s1 s2 ->
+  match lstep n y s1 a, lstep n y s2 a with
+  | Some r1, Some r2 => Ext y r1 r2
+  | None, None => True
+  | _, _ => False
+  end.
+Proof.
+  intros E. destruct (lt_dec (act_task a) (ltasks y)) as [Ht|Ht].
+  2:{ rewrite (lstep_out_of_range n y s1 a (act_task a)), (lstep_out_of_range n y s2 a (act_task a)); auto; destruct a; reflexivity. }
+  destruct a as [t|t|t|t|t]; cbn [act_task] in Ht; unfold lstep; rewrite <- (E t Ht);
+    try rewrite <- (count_d_ext y s1 s2 E); unfold lfree; try rewrite <- (all_held_ext y s1 s2 E).
+  - destruct (s1 t); try exact I. destruct (nth_error _ _); [|exact I].
+    destruct (_ && _); [apply ext_upd; exact E|exact I].
+  - destruct (s1 t); try exact I. destruct (_ && _); [apply ext_upd; exact E|exact I].
+  - destruct (s1 t) as [|[|w]| |]; try exact I. destruct (_ && _); [apply ext_upd; exact E|exact I].
+  - destruct (s1 t); try exact I. destruct (Nat.ltb _ _); [apply ext_upd; exact E|exact I].
+  - destruct (s1 t) as [|[|w]| |]; try exact I. destruct (Nat.ltb _ _); [apply ext_upd; exact E|exact I].
+Qed.
+
+Lemma ext_trans y a b c : Ext y a b -> Ext y b c -> Ext y a c.
+Proof. intros H1 H2 t Ht. rewrite (H1 t Ht). apply H2. exact Ht. Qed.
+
+Lemma lrun_fast_ext n y : forall tr s1 s2, Ext y s1 s2 ->
+  match lrun_fast n y s1 tr, lrun n y s2 tr with
+  | Some r1, Some r2 => Ext y r1 r2
+  | None, None => True
+  | _, _ => False
+  end.
+Proof.
+  induction tr as [|a r IH]; intros s1 s2 E; cbn [lrun_fast lrun]; [exact E|].
+  pose proof (lstep_ext n y s1 s2 a E) as H.
+  destruct (lstep n y s1 a) as [r1|], (lstep n y s2 a) as [r2|]; try contradiction; [|exact I].
+  apply IH. apply (ext_trans y _ r1); [apply lnorm_ext|exact H].
+Qed.
+
+Lemma lfinishedb_ext y s1 s2 : Ext y s1 s2 -> lfinishedb y s1 = lfinishedb y s2.
+Proof.
+  intros E. unfold lfinishedb. apply forallb_ext_in'. intros t Ht. apply in_seq in Ht. rewrite (E t); [reflexivity|lia].
+Qed.
+
+Lemma laccepts_fast_eq n y tr : laccepts_fast n y tr = laccepts n y tr.
+Proof.
+  unfold laccepts_fast, laccepts. f_equal.
+  pose proof (lrun_fast_ext n y tr linit linit (fun t _ => eq_refl)) as H.
+  destruct (lrun_fast n y linit tr) as [r1|], (lrun n y linit tr) as [r2|]; try contradiction; [|reflexivity].
+  apply lfinishedb_ext. exact H.
+Qed.
